@@ -17,10 +17,10 @@ import numpy as np
 
 from mc.harness import HarnessError
 
-OWNED = ("binomial", "choice", "poisson", "normal", "randint", "permutation", "shuffle")
+OWNED = ("binomial", "choice", "poisson", "normal", "standard_normal", "randint", "permutation", "shuffle")
 TRAPPED = (
     "rand", "randn", "random", "random_sample", "ranf", "sample", "uniform", "multinomial", "seed", "default_rng",
-    "RandomState", "standard_normal", "exponential", "gamma", "beta", "bytes", "random_integers", "geometric",
+    "RandomState", "exponential", "gamma", "beta", "bytes", "random_integers", "geometric",
     "hypergeometric", "laplace", "logistic", "lognormal", "multivariate_normal", "negative_binomial", "pareto",
     "rayleigh", "standard_cauchy", "standard_exponential", "standard_gamma", "standard_t", "triangular", "vonmises",
     "wald", "weibull", "zipf", "chisquare", "dirichlet", "f", "gumbel", "get_state", "set_state", "Generator",
@@ -124,6 +124,9 @@ class Oracle:
         mm = np.broadcast_to(np.asarray(loc, dtype=float), shape).reshape(-1)
         ss = np.broadcast_to(np.asarray(scale, dtype=float), shape).reshape(-1)
         return np.array([one(a, b) for a, b in zip(mm, ss)], dtype=float).reshape(shape)
+
+    def standard_normal(self, size=None):
+        return self.normal(0.0, 1.0, size)
 
     def choice(self, a, size=None, replace=True, p=None):
         if np.ndim(a) == 0:
